@@ -120,6 +120,12 @@ static bool run_case(const Case &c, Report *rep, uint64_t delay_seed) {
     else if (n == "fill") { long lo = op.args.size() > 0 ? atol(op.args[0].c_str()) : 0, hi = op.args.size() > 1 ? atol(op.args[1].c_str()) : lo + 10, nb = op.args.size() > 2 ? atol(op.args[2].c_str()) : 1000; for (long k = lo; k < hi && k < lo + 3000; k++) { std::string key = sfmt("f%05ld", k), v; expand_bytes(sfmt("r%ld.%ld", k, nb), v); ldb_slice_t ks = slice_of(key), vs = slice_of(v); ldb_put(sh.db, &ks, &vs, nullptr); } }
     else if (n == "flush") ldb_test_compact_memtable(sh.db);
     else if (n == "crange") ldb_test_compact_range(sh.db, op.args.size() ? atoi(op.args[0].c_str()) % 6 : 0, nullptr, nullptr);
+    else if (n == "tables") {
+      // many small tables with disjoint keys (each flush lands below level 0 and stays a file of its own): with the minimum
+      // max_open_files the table cache holds 4 entries per shard, so concurrent lookups evict each other's tables
+      long cnt = op.args.size() ? atol(op.args[0].c_str()) : 80;
+      for (long i = 0; i < cnt && i < 400; i++) { std::string key = sfmt("m%04ld", i), v = sfmt("tbl%04ld", i); ldb_slice_t ks = slice_of(key), vs = slice_of(v); ldb_put(sh.db, &ks, &vs, nullptr); ldb_test_compact_memtable(sh.db); }
+    }
   }
   g_delay_seed = delay_seed;
   std::vector<std::thread> ths;
